@@ -519,6 +519,9 @@ pub fn run(o: &Opts) -> Value {
             continue;
         }
         let dups = reggen::identity_duplicates(&labels);
+        // self-test of this tier: VH_DT_LEGACY_IDENTITY=1 compares the derive with the interner under the false
+        // assumption the tier corrected (must fail on the identity corpus)
+        let interned = if std::env::var("VH_DT_LEGACY_IDENTITY").is_ok() { reggen::build_legacy_identity(&p) } else { interned };
         cases.push(Case { k, name, program: p, interned, dups });
     }
 
